@@ -93,6 +93,7 @@ type Ctx struct {
 	Shard   int
 	NShards int
 	Dir     string // scratch/output directory of this shard
+	ResPath string // where Finish writes (set by ChildMain)
 
 	mu       sync.Mutex
 	res      Result
@@ -283,6 +284,17 @@ func (c *Ctx) Par(n, w int, fn func(i int)) {
 		}()
 	}
 	wg.Wait()
+}
+
+// Abort ends this shard now, keeping what it observed so far. It is used
+// after a livelock verdict: the spinning goroutines poison every later
+// quiescence decision in this process.
+func (c *Ctx) Abort(why string) {
+	c.Note("shard %d ended early: %s", c.Shard, why)
+	if c.ResPath != "" {
+		c.Finish(c.ResPath)
+	}
+	os.Exit(0)
 }
 
 // Finish writes the shard result.
